@@ -3,6 +3,8 @@
 package NoKV
 
 import (
+	"time"
+
 	sym "github.com/feichai0017/NoKV/internal/verifsym"
 	"github.com/feichai0017/NoKV/kv"
 )
@@ -81,6 +83,86 @@ func VerifC04AtomicCommit() {
 	}
 	if !withClose {
 		sym.Assert(errs[0] == nil && (ntxn < 2 || errs[1] == nil), "disjoint-transactions-commit")
+	}
+	sym.Reached("end")
+}
+
+// A request the storage engine rejects (empty key, as lsm.SetBatch does) travels
+// through the pipeline next to a regular transaction; the commit worker may
+// coalesce both into one batch in either order. Whatever Commit reports is what
+// happened: nil => the writes were applied exactly once, together; an error =>
+// none of them was applied.
+func VerifC04RejectedNeighbour() {
+	// native replay: the coalescing window of the real commit worker puts two
+	// requests queued back to back into one batch; no schedule control is needed
+	sym.FreeRun()
+	VerifPipelineBatchWait = 300 * time.Millisecond
+	db := VerifOpenPipelineDB(2, true)
+	keys := []string{"a1", "b1"}
+	payload := sym.U8("payload")
+	var badErr, err error
+	commit := func() {
+		err = db.Update(func(txn *Txn) error {
+			for _, k := range keys {
+				if e := txn.SetEntry(kv.NewEntry([]byte(k), []byte{payload})); e != nil {
+					return e
+				}
+			}
+			return nil
+		})
+	}
+	bad := kv.NewEntryWithCF(kv.CFDefault, []byte{}, []byte("x"))
+	running := 0
+	if sym.Int("rejected_request_first", 0, 1) == 1 {
+		// the rejected request is queued first; the commit follows from the same goroutine
+		req, e := db.sendToWriteCh([]*kv.Entry{bad}, true)
+		commit()
+		if e == nil {
+			e = req.Wait()
+		}
+		badErr = e
+	} else {
+		running = 1
+		sym.Go(func() {
+			commit()
+			running--
+		})
+		req, e := db.sendToWriteCh([]*kv.Entry{bad}, true)
+		if e == nil {
+			e = req.Wait()
+		}
+		badErr = e
+	}
+	sym.WaitUntil(func() bool { return running == 0 })
+	sym.Assert(badErr != nil, "rejected-request-reports-its-error")
+	if !sym.Symbolic() {
+		// native: what a reader sees afterwards
+		seen := 0
+		_ = db.View(func(txn *Txn) error {
+			for _, k := range keys {
+				if it, e := txn.Get([]byte(k)); e == nil && it != nil {
+					seen++
+				}
+			}
+			return nil
+		})
+		if err == nil {
+			sym.Assert(seen == 2, "committed-writes-applied-exactly-once")
+		} else {
+			sym.Assert(seen == 0, "failed-commit-leaves-no-trace")
+		}
+		VerifClosePipeline(db)
+		sym.Reached("end")
+		return
+	}
+	VerifClosePipeline(db)
+	a, b := keys[0], keys[1]
+	if err == nil {
+		sym.Assert(VerifApplied[a] == 1 && VerifApplied[b] == 1, "committed-writes-applied-exactly-once")
+		sym.Assert(VerifBatchOf[a] == VerifBatchOf[b], "committed-writes-become-visible-together")
+		sym.Assert(len(VerifValueOf[a]) == 1 && VerifValueOf[a][0] == payload, "committed-value-is-the-written-one")
+	} else {
+		sym.Assert(VerifApplied[a] == 0 && VerifApplied[b] == 0, "failed-commit-leaves-no-trace")
 	}
 	sym.Reached("end")
 }
